@@ -1,7 +1,7 @@
 import nodettl as N
 def run(chk):
     thorough = chk.tier == "thorough"
-    N.model_check(chk, dev=[("dev_noprune", "C05_Clean"), ("dev_eraseonlookup", "C05_Once")], reach=[("reach_lookup", "Reach_LookupBetweenDeadlineAndTick")])
+    N.model_check(chk, dev=[("dev_noprune", "C05_Clean"), ("dev_eraseonlookup", "C05_Once"), ("dev_nowithdraw", "C05_Clean")], reach=[("reach_lookup", "Reach_LookupBetweenDeadlineAndTick")])
     N.run_driver(chk, N.model_sequences(chk, 6000 if thorough else 600), "tlc-state-cover")
     N.run_driver(chk, N.random_behaviours(chk.rng, 4000 if thorough else 300, "c05"), "random-with-ticks")
     N.run_driver(chk, N.random_behaviours(chk.rng, 2000 if thorough else 150, "c05x"), "random-foreign-manifests-on-local-ids")
